@@ -145,7 +145,12 @@ class StandardRequestHandler(ControlRequestHandler):
                             with m.Case(USBStandardRequests.GET_STATUS):
                                 m.next = 'GET_STATUS'
                             with m.Case(USBStandardRequests.CLEAR_FEATURE):
-                                m.next = 'CLEAR_FEATURE'
+                                # For now, we only implement clearing ENDPOINT_HALT.
+                                with m.If((setup.recipient != USBRequestRecipient.ENDPOINT) |
+                                          (setup.value     != USBStandardFeatures.ENDPOINT_HALT)):
+                                    m.next = 'UNHANDLED'
+                                with m.Else():
+                                    m.next = 'CLEAR_FEATURE'
                             with m.Case(USBStandardRequests.SET_ADDRESS):
                                 m.next = 'SET_ADDRESS'
                             with m.Case(USBStandardRequests.SET_CONFIGURATION):
